@@ -299,3 +299,4 @@ def run(ctx, rep):
     midside_parity_rules(F, rep, "C03")
     from rules import C05 as _C05
     compose(ctx, rep, "C05", "C03.valid", r"^C05\.(short|eof)$")
+    compose(ctx, rep, "C07", "C03.bytes", r"^C07\.width$")
